@@ -89,6 +89,29 @@ def register_loops(I, loops: DictV):
         I.world.loopspecs[id(nodes[ordinal])] = d
 
 
+class Poison:
+    """value of a local that the loop body assigns but the loop contract does not describe
+    at an arbitrary iteration: any use is outside the subset (never a silent first-iteration
+    value)"""
+
+    def __init__(self, name, loop):
+        self.name, self.loop = name, loop
+
+    def __repr__(self):
+        return f"<unknown {self.name} at an arbitrary iteration of {self.loop}>"
+
+
+def assigned_names(stmts):
+    out = set()
+    for st in stmts:
+        for n in ast.walk(st):
+            if isinstance(n, (ast.FunctionDef, ast.AsyncFunctionDef, ast.Lambda, ast.ClassDef)):
+                continue
+            if isinstance(n, ast.Name) and isinstance(n.ctx, (ast.Store, ast.Del)):
+                out.add(n.id)
+    return out
+
+
 def _snapshot(v):
     """hooks see the values of mutable locals as they are at the hook, not later"""
     from .values import BytearrayV, SetV, SymListV, deref
@@ -143,6 +166,10 @@ def cut_loop(I, node, env, spec):
         seq = I.eval(node.iter, env)
         from .values import LazyDictV
 
+        from .values import LazySetV
+
+        if isinstance(seq, LazySetV):
+            seq = seq.d
         if isinstance(seq, LazyDictV):
             seq = I.lib.ItemsView(seq, "keys")
         if isinstance(seq, I.lib.ItemsView) and isinstance(seq.d, LazyDictV):
@@ -157,9 +184,24 @@ def cut_loop(I, node, env, spec):
     if inv is not None:
         ctx.check(_call_bool(I, inv, [vc, _vars_dict(I, env, {"$iter": seq, "$k": 0} if is_for else None)]), f"{name}.inv_init", where)
 
+    listed = set()
     if isinstance(havoc, DictV):
         for vname, gen in havoc.pairs:
+            listed.add(vname)
             env.assign(vname, I.call(gen, [vc, ctx.fresh_name(f"{name}.{vname}")], {}, None))
+    # soundness of the cut: every other local the body assigns holds an unknown value at an
+    # arbitrary iteration (harmless if the body assigns it before using it)
+    target_names = assigned_names([node.target]) if is_for else set()
+    keep = spec.get("keep")
+    keep = set(I.lib.iterate(I, keep, node)) if keep is not None else set()
+    kept_values = {}
+    for vname in assigned_names(node.body) - listed - target_names:
+        if vname in keep:
+            # the contract claims the body changes it only on paths that leave the loop:
+            # checked after the iteration (obligation <loop>.unmodified[<name>])
+            kept_values[vname] = env.vars.get(vname)
+        elif vname in env.vars:
+            env.vars[vname] = Poison(vname, name)
 
     if is_for:
         n = I.lib.length(I, seq, node)
@@ -207,6 +249,9 @@ def cut_loop(I, node, env, spec):
     if is_for:
         extra = dict(extra)
         extra["$k"] = mk_int(zint(int_term(extra["$k"])) + 1)
+    for vname, v0_ in kept_values.items():
+        e_ = I.lib.eq(I, env.vars.get(vname), v0_, node)
+        ctx.check(e_, f"{name}.unmodified[{vname}]", where)
     post = spec.get("post")
     if post is not None:
         I.call(post, [vc, _vars_dict(I, env, extra)], {}, None)
@@ -238,6 +283,10 @@ def cut_comprehension(I, node, env, spec):
     if len(node.generators) != 1 or g.ifs:
         raise OutsideSubset(f"comprehension contract {name}: only a single generator without conditions is supported")
     seq = deref(I.eval(g.iter, env))
+    from .values import LazySetV
+
+    if isinstance(seq, LazySetV):
+        seq = seq.d
     if isinstance(seq, LazyDictV):
         seq = I.lib.ItemsView(seq, "keys")
     if isinstance(seq, I.lib.ItemsView) and isinstance(seq.d, LazyDictV):
